@@ -247,3 +247,39 @@ _run_k = run
 def run(ctx, rep, tier):
     _run_k(ctx, rep, tier)
     _one_else_clause(ctx, rep, tier)
+
+
+# ---------------------------------------------------------------------------------------------------------------- C09.l
+def _join_behind_a_step(ctx, rep, tier):
+    """C09.l (second half of the F-88 repair): chained actions that cannot ride on a consuming transition get a non-consuming step of their own (C01.s/t). The state
+    behind such a step has no transitions of its own, so the join test of append_after finds nothing to compare the following statement with - the state that decides
+    what happens to the byte is the one in FRONT of the step. append_after therefore tests the chained start transitions against every state that enters a join state
+    through a non-error fall-through."""
+    import ast
+    model = ctx.model
+    rep.rule("C09.l", "a join state entered through a non-consuming (non-error) step is also tested against what the state in front of the step continues with")
+    q = "DFA.append_after"
+    if "DFA.append_action_step" not in model.functions:
+        rep.ok("C09.l", q, "no action steps are built in this tree (chained actions always ride on transitions of the join states: C01.s / C01.t report that)", nontrivial=False)
+        return
+    ok = model.has(q, "for sub_state in sub_states:\n    for predecessor, step in self.transitions_pointing_to(sub_state, include_states=True):\n"
+                      "        if not step.is_fallthrough or step.error_handling or isinstance(predecessor, DFProxyState):\n            continue\n        ...") and \
+        model.has(q, "starts_on = set(transition.on_values)\nif DFTransition.Else in starts_on:\n    starts_on.update(predecessor.compute_foreign_else_definition(chained_dfa.starting_state))") and \
+        model.has(q, "continues = predecessor[symbol]\nif continues is not None and continues is not step and (not continues.error_handling) and (not continues.is_fallthrough) and (continues.target != transition.target):\n"
+                     "    raise IllegalDFAStateConflictsError($$m, continues, transition)")
+    fn = model.func(q)
+    body = strip_doc(fn.body)
+    i_chk = next((i for i, st in enumerate(body) if isinstance(st, ast.For) and "transitions_pointing_to(sub_state" in ast.unparse(st)), None)
+    i_join = next((i for i, st in enumerate(body) if isinstance(st, ast.For) and "culled_chained_transitions" in ast.unparse(st)), None)
+    rep.check(ok and i_chk is not None and i_join is not None and i_chk < i_join, "C09.l", q,
+              "for every non-error fall-through entering a join state: a byte its source continues with (consuming, not an error path, other target) must not start the chained machine - refused",
+              "append_after does not test the chained start transitions against the states that enter a join state through a non-consuming step: behind an action step the join state has no "
+              "transitions, so `/b+/; optional { \"c\"; } if stop { finish; } \"b\";` is accepted and the second b silently goes to the regex")
+
+
+_run_l = run
+
+
+def run(ctx, rep, tier):
+    _run_l(ctx, rep, tier)
+    _join_behind_a_step(ctx, rep, tier)
